@@ -471,11 +471,13 @@ MANIFEST_TEXT = {
                    "theorem; the three maps stay mutually consistent as invariants: the by-target map lists every name of a target, names "
                    "are unique in the by-name map); Unregister/Reset remove, the merge is a priority-overriding union; k nested "
                    "StartBatch/EndBatch pairs send BatchMode(true) once on the outermost start and BatchMode(false) once on the matching "
-                   "end to the same targets -- Coq theorems over an executable three-map model. The final sort by priority (sort.Slice), "
-                   "panic isolation and concurrency are decided per run: correspondence on call sequences (up to the unstable sort), a "
-                   "registration-set oracle on the implementation's call log, the race detector.",
+                   "end to the same targets; the delivery itself (targets sorted by non-increasing priority, each called inside a recovering "
+                   "wrapper) calls every registered target exactly once in non-increasing priority order whichever targets panic, the "
+                   "recovery handler hearing of exactly the panicking ones once each -- Coq theorems over an executable three-map model. "
+                   "Go's sort.Slice (order among equal priorities) and concurrency are decided per run: correspondence on call sequences "
+                   "(the priority sequence must be the model's), a registration-set oracle on the implementation's call log, the race detector.",
         level_note="Trusted: Coq kernel, extraction, drivers, harness, Go race detector; model hand-written, tied by correspondence on sampled "
-                   "histories; ordering of the delivered calls by priority is Go's sort, checked per run.",
+                   "histories; the sort is modelled as an insertion sort (ties in any order accepted from Go's unstable sort).",
         technique="Coq proof on a hand-written Gallina model + differential correspondence check (+ race detector for the concurrency clause)"),
     "C11": dict(
         level_text="Proof: in the store model of errs, Append(acc, args) yields exactly items(acc) ++ items(args...) in order (aggregates "
